@@ -406,4 +406,192 @@ def applyDiffLoop (xs : List Obj) (hs : List Nat) : List (Option Diff) → List 
 def applyDiff (xs : List Obj) (n : Nat) : List DiffEvent × Bool :=
   applyDiffLoop xs (List.range n) (DiffIter.run xs)
 
+/-! ### driving patterns of the DiffIterator
+
+A DiffIterator OBJECT is the four basic iterators plus the `mutable m_diff` that `set_diff()`
+overwrites on every dereference (`operator*`, `operator->`).  A program drives two such objects
+`a` and `b` (`b` starts as a copy of `a`) through any sequence of the public operations.  -/
+
+structure DiffIterObj where
+  it : DiffIter
+  /-- `m_diff`: `none` = default-constructed DiffObject (or a dereference outside the range) -/
+  diff : Option Diff
+  deriving Repr, DecidableEq
+
+/-- `*this == DiffIterator{end, end}`: `m_curr == rhs.m_curr && m_end == rhs.m_end` -/
+def DiffIterObj.atEnd (o : DiffIterObj) : Bool := o.it.curr == o.it.«end»
+
+/-- `operator==` -/
+def DiffIterObj.eq (x y : DiffIterObj) : Bool := x.it.curr == y.it.curr && x.it.«end» == y.it.«end»
+
+/-- `operator*` / `operator->`: `set_diff(); return m_diff;` -/
+def DiffIterObj.star (xs : List Obj) (o : DiffIterObj) : DiffIterObj × Option Diff :=
+  let o' : DiffIterObj := { o with diff := DiffIter.deref xs o.it }
+  (o', o'.diff)
+
+/-- `operator++()`: moves the basic iterators, does not touch `m_diff` -/
+def DiffIterObj.incr (o : DiffIterObj) : DiffIterObj := { o with it := o.it.incr }
+
+inductive DriveOp
+  | deref    -- `use(*a)`
+  | arrow    -- `use(*a.operator->())`
+  | inc      -- `++a`
+  | post     -- `use(*a++)`  (`DiffIterator tmp{*this}; operator++(); return tmp;` then `*tmp`)
+  | adv2     -- `std::advance(a, 2)`
+  | copy     -- `b = a`
+  | assign   -- `a = b`
+  | derefB   -- `use(*b)`
+  | incB     -- `++b`
+  | postB    -- `use(*b++)`
+  | cmpEnd   -- `a == end`
+  | cmpAB    -- `a == b`
+  deriving Repr, DecidableEq
+
+inductive DriveOut
+  | present (d : Option Diff)   -- what a dereference presented
+  | atEnd                       -- the operation needs a dereferenceable iterator: not executed
+  | isEnd (b : Bool)
+  | equal (b : Bool)
+  deriving Repr, DecidableEq
+
+structure DriveState where
+  a : DiffIterObj
+  b : DiffIterObj
+  deriving Repr, DecidableEq
+
+def DriveState.init (xs : List Obj) : DriveState :=
+  { a := { it := DiffIter.mk xs, diff := none }, b := { it := DiffIter.mk xs, diff := none } }
+
+def driveStep (xs : List Obj) (s : DriveState) : DriveOp → DriveState × List DriveOut
+  | .deref =>
+    if s.a.atEnd then (s, [.atEnd]) else ({ s with a := (s.a.star xs).1 }, [.present (s.a.star xs).2])
+  | .arrow =>
+    if s.a.atEnd then (s, [.atEnd]) else ({ s with a := (s.a.star xs).1 }, [.present (s.a.star xs).2])
+  | .inc => if s.a.atEnd then (s, [.atEnd]) else ({ s with a := s.a.incr }, [])
+  | .post =>
+    -- the temporary copy is dereferenced after `a` has moved on, and dies
+    if s.a.atEnd then (s, [.atEnd]) else ({ s with a := s.a.incr }, [.present (s.a.star xs).2])
+  | .adv2 =>
+    if s.a.atEnd || s.a.incr.atEnd then (s, [.atEnd]) else ({ s with a := s.a.incr.incr }, [])
+  | .copy => ({ s with b := s.a }, [])
+  | .assign => ({ s with a := s.b }, [])
+  | .derefB =>
+    if s.b.atEnd then (s, [.atEnd]) else ({ s with b := (s.b.star xs).1 }, [.present (s.b.star xs).2])
+  | .incB => if s.b.atEnd then (s, [.atEnd]) else ({ s with b := s.b.incr }, [])
+  | .postB =>
+    if s.b.atEnd then (s, [.atEnd]) else ({ s with b := s.b.incr }, [.present (s.b.star xs).2])
+  | .cmpEnd => (s, [.isEnd s.a.atEnd])
+  | .cmpAB => (s, [.equal (s.a.eq s.b)])
+
+def driveRun (xs : List Obj) : DriveState → List DriveOp → List DriveOut
+  | _, [] => []
+  | s, op :: rest => (driveStep xs s op).2 ++ driveRun xs (driveStep xs s op).1 rest
+
+/-- `drive` = the outputs of a whole script on a fresh iterator -/
+def drive (xs : List Obj) (ops : List DriveOp) : List DriveOut := driveRun xs (DriveState.init xs) ops
+
+/-! the specification: outputs as a function of the POSITIONS of `a` and `b` alone -/
+
+structure DrivePos where
+  a : Nat
+  b : Nat
+  deriving Repr, DecidableEq
+
+def presentAt (xs : List Obj) (i : Nat) : DriveOut := .present (some (diffAt xs i))
+
+def specStep (xs : List Obj) (p : DrivePos) : DriveOp → DrivePos × List DriveOut
+  | .deref => if p.a < xs.length then (p, [presentAt xs p.a]) else (p, [.atEnd])
+  | .arrow => if p.a < xs.length then (p, [presentAt xs p.a]) else (p, [.atEnd])
+  | .inc => if p.a < xs.length then ({ p with a := p.a + 1 }, []) else (p, [.atEnd])
+  | .post => if p.a < xs.length then ({ p with a := p.a + 1 }, [presentAt xs p.a]) else (p, [.atEnd])
+  | .adv2 => if p.a + 1 < xs.length then ({ p with a := p.a + 2 }, []) else (p, [.atEnd])
+  | .copy => ({ p with b := p.a }, [])
+  | .assign => ({ p with a := p.b }, [])
+  | .derefB => if p.b < xs.length then (p, [presentAt xs p.b]) else (p, [.atEnd])
+  | .incB => if p.b < xs.length then ({ p with b := p.b + 1 }, []) else (p, [.atEnd])
+  | .postB => if p.b < xs.length then ({ p with b := p.b + 1 }, [presentAt xs p.b]) else (p, [.atEnd])
+  | .cmpEnd => (p, [.isEnd (p.a == xs.length)])
+  | .cmpAB => (p, [.equal (p.a == p.b)])
+
+def specRun (xs : List Obj) : DrivePos → List DriveOp → List DriveOut
+  | _, [] => []
+  | p, op :: rest => (specStep xs p op).2 ++ specRun xs (specStep xs p op).1 rest
+
+/-- where a script leaves the two iterators -/
+def specPos (xs : List Obj) : DrivePos → List DriveOp → DrivePos
+  | p, [] => p
+  | p, op :: rest => specPos xs (specStep xs p op).1 rest
+
+/-! ### driving patterns of the filtering iterators (ItemIterator<T>, InputIterator<_, T>)
+
+The same scripts as for the DiffIterator, over any iterator given by its four public operations. -/
+
+structure IterOps (σ : Type) where
+  atEnd : σ → Bool          -- `it == end`
+  incr : σ → σ              -- `operator++`
+  star : σ → Option Nat     -- `operator*` / `operator->`: position of the item presented
+  eq : σ → σ → Bool         -- `operator==`
+
+inductive FOut
+  | item (p : Option Nat) | atEnd | isEnd (b : Bool) | equal (b : Bool)
+  deriving Repr, DecidableEq
+
+def gdriveStep {σ : Type} (I : IterOps σ) (s : σ × σ) : DriveOp → (σ × σ) × List FOut
+  | .deref => if I.atEnd s.1 then (s, [.atEnd]) else (s, [.item (I.star s.1)])
+  | .arrow => if I.atEnd s.1 then (s, [.atEnd]) else (s, [.item (I.star s.1)])
+  | .inc => if I.atEnd s.1 then (s, [.atEnd]) else ((I.incr s.1, s.2), [])
+  | .post => if I.atEnd s.1 then (s, [.atEnd]) else ((I.incr s.1, s.2), [.item (I.star s.1)])
+  | .adv2 => if I.atEnd s.1 || I.atEnd (I.incr s.1) then (s, [.atEnd]) else ((I.incr (I.incr s.1), s.2), [])
+  | .copy => ((s.1, s.1), [])
+  | .assign => ((s.2, s.2), [])
+  | .derefB => if I.atEnd s.2 then (s, [.atEnd]) else (s, [.item (I.star s.2)])
+  | .incB => if I.atEnd s.2 then (s, [.atEnd]) else ((s.1, I.incr s.2), [])
+  | .postB => if I.atEnd s.2 then (s, [.atEnd]) else ((s.1, I.incr s.2), [.item (I.star s.2)])
+  | .cmpEnd => (s, [.isEnd (I.atEnd s.1)])
+  | .cmpAB => (s, [.equal (I.eq s.1 s.2)])
+
+def gdriveRun {σ : Type} (I : IterOps σ) : σ × σ → List DriveOp → List FOut
+  | _, [] => []
+  | s, op :: rest => (gdriveStep I s op).2 ++ gdriveRun I (gdriveStep I s op).1 rest
+
+/-- `ItemIterator<T>`: `==` compares `m_data` (and `m_end`): the same suffix of the buffer -/
+def itemIterOps (c : FilterClass) : IterOps (List PItem) :=
+  { atEnd := fun s => s.isEmpty, incr := ItemIter.incr c, star := fun s => s.head?.map (·.1),
+    eq := fun x y => x.length == y.length }
+
+/-- `InputIterator<TSource, T>` (ONE iterator object: copies share the source) -/
+def inIterOps (c : FilterClass) : IterOps InState :=
+  { atEnd := fun s => s.iter.isNone, incr := InIter.incr c,
+    star := fun s => match s.iter with | some (x :: _) => some x.1 | _ => none,
+    eq := fun x y => match x.iter, y.iter with
+      | none, none => true
+      | some a, some b => a.length == b.length && x.source.length == y.source.length
+      | _, _ => false }
+
+def itemDrive (c : FilterClass) (buf : List PItem) (ops : List DriveOp) : List FOut :=
+  gdriveRun (itemIterOps c) (ItemIter.mk c buf, ItemIter.mk c buf) ops
+
+def inDrive (c : FilterClass) (bufs : List (List PItem)) (ops : List DriveOp) : List FOut :=
+  gdriveRun (inIterOps c) (InIter.mk c bufs, InIter.mk c bufs) ops
+
+/-- the specification: the iterator at position `i` presents the `i`-th element of `vis` (the items
+    the iterator has to visit), whatever was done before -/
+def fspecStep (vis : List Nat) (p : DrivePos) : DriveOp → DrivePos × List FOut
+  | .deref => if p.a < vis.length then (p, [.item vis[p.a]?]) else (p, [.atEnd])
+  | .arrow => if p.a < vis.length then (p, [.item vis[p.a]?]) else (p, [.atEnd])
+  | .inc => if p.a < vis.length then ({ p with a := p.a + 1 }, []) else (p, [.atEnd])
+  | .post => if p.a < vis.length then ({ p with a := p.a + 1 }, [.item vis[p.a]?]) else (p, [.atEnd])
+  | .adv2 => if p.a + 1 < vis.length then ({ p with a := p.a + 2 }, []) else (p, [.atEnd])
+  | .copy => ({ p with b := p.a }, [])
+  | .assign => ({ p with a := p.b }, [])
+  | .derefB => if p.b < vis.length then (p, [.item vis[p.b]?]) else (p, [.atEnd])
+  | .incB => if p.b < vis.length then ({ p with b := p.b + 1 }, []) else (p, [.atEnd])
+  | .postB => if p.b < vis.length then ({ p with b := p.b + 1 }, [.item vis[p.b]?]) else (p, [.atEnd])
+  | .cmpEnd => (p, [.isEnd (p.a == vis.length)])
+  | .cmpAB => (p, [.equal (p.a == p.b)])
+
+def fspecRun (vis : List Nat) : DrivePos → List DriveOp → List FOut
+  | _, [] => []
+  | p, op :: rest => (fspecStep vis p op).2 ++ fspecRun vis (fspecStep vis p op).1 rest
+
 end Osmium.Dispatch
